@@ -933,6 +933,33 @@ impl IndexManager {
     // Mutation methods for manager-as-mutator pattern
     // =========================================================================
 
+    /// Append an entry to a bucket's update section, flushing first when the
+    /// section is full.
+    ///
+    /// Same flush-and-retry behaviour as [`add_entry`](Self::add_entry): when
+    /// the append fails because the update section is full, the section is
+    /// merged into the sorted section and the append is retried once. Returns
+    /// `true` only if the entry was appended.
+    fn append_update_with_flush(&mut self, index_id: u8, entry: UpdateEntry) -> bool {
+        let Some(index) = self.indices.get_mut(&index_id) else {
+            return false;
+        };
+        if index.update_section.append(entry.clone()) {
+            return true;
+        }
+
+        // Update section full -- flush (merge into sorted), then retry.
+        // The in-memory merge happens before the file is written, so the
+        // retry is attempted even if persisting the flushed bucket failed.
+        if let Err(e) = self.flush_updates_for_bucket(index_id) {
+            warn!("failed to persist flushed index bucket {index_id:02x}: {e}");
+        }
+
+        self.indices
+            .get_mut(&index_id)
+            .is_some_and(|index| index.update_section.append(entry))
+    }
+
     /// Remove an entry by encoding key.
     ///
     /// Writes a delete tombstone (status 3) to the update section.
@@ -952,15 +979,16 @@ impl IndexManager {
         truncated_key[..9.min(key_bytes.len())]
             .copy_from_slice(&key_bytes[..9.min(key_bytes.len())]);
 
-        if let Some(index) = self.indices.get_mut(&index_id) {
+        if self.indices.contains_key(&index_id) {
             let tombstone = UpdateEntry::new(
                 truncated_key,
                 entry.archive_location,
                 entry.size,
                 UpdateStatus::Delete,
             );
-            index.update_section.append(tombstone);
-            return true;
+            // A full update section is flushed and the append retried, so
+            // `true` is only returned once the tombstone is in place.
+            return self.append_update_with_flush(index_id, tombstone);
         }
 
         false
@@ -994,7 +1022,7 @@ impl IndexManager {
         truncated_key[..9.min(key_bytes.len())]
             .copy_from_slice(&key_bytes[..9.min(key_bytes.len())]);
 
-        if let Some(index) = self.indices.get_mut(&index_id) {
+        if self.indices.contains_key(&index_id) {
             let entry = UpdateEntry::new(
                 truncated_key,
                 ArchiveLocation {
@@ -1004,7 +1032,7 @@ impl IndexManager {
                 size,
                 UpdateStatus::Normal,
             );
-            return index.update_section.append(entry);
+            return self.append_update_with_flush(index_id, entry);
         }
 
         false
@@ -1028,10 +1056,10 @@ impl IndexManager {
         truncated_key[..9.min(key_bytes.len())]
             .copy_from_slice(&key_bytes[..9.min(key_bytes.len())]);
 
-        if let Some(index) = self.indices.get_mut(&index_id) {
+        if self.indices.contains_key(&index_id) {
             let update =
                 UpdateEntry::new(truncated_key, entry.archive_location, entry.size, status);
-            return index.update_section.append(update);
+            return self.append_update_with_flush(index_id, update);
         }
 
         false
